@@ -26,7 +26,8 @@ RULE = (
     "out-of-domain literals (float/huge/negative ids, string/float/identifier enum values, empty enum, unknown parameter, "
     "wrong parameter arity, integer-literal range, non-string unit, negative/float/zero array size, import of a missing or "
     "garbage module, wrong version); (4b) valid schemas with unusual separators (CR, VT, FF, FS..RS, NEL, U+2028/9, NUL, BOM, "
-    "NBSP) inside comments and strings, whole or cut anywhere, also inside a comment; (5) thorough: atheris coverage-guided campaign. Oracle: (a) the call returns; (b) no "
+    "NBSP) inside comments and strings, whole or cut anywhere, also inside a comment; (4c) edit sessions: 2-4 successive "
+    "versions of one file at one path parsed with one shared Logger; (5) thorough: atheris coverage-guided campaign. Oracle: (a) the call returns; (b) no "
     "exception escapes get_fcp_from_string/get_fcp and the value is Ok(FcpV2) or Err(FcpError); (c) Logger.error(err) "
     "returns a str; (d) every [<name>.fcp:<line>] citation names a registered source and 1 <= line <= its line count. "
     "Failures are bucketed by (exception type, innermost fcp frame) / oracle clause and the shortest input per bucket is "
@@ -271,6 +272,55 @@ def exotic(draw) -> Tuple[str, str]:
     return text[:2048], mode
 
 
+@st.composite
+def edit_session(draw) -> List[str]:
+    """2-4 successive versions of one file (an editor / watch-mode session): prefixes, token mutations, valid text."""
+    d = draw(S.full_schema(small_cfg()))
+    toks = [t for g in printer.tokens(d) for t in g]
+    text = printer.to_text(d)
+    out = []
+    for _ in range(draw(st.integers(2, 4))):
+        k = draw(st.integers(0, 3))
+        if k == 0:
+            out.append(text[: draw(st.integers(0, len(text)))])
+        elif k == 1:
+            tt = list(toks)
+            i = draw(st.integers(0, len(tt) - 1))
+            tt[i] = draw(st.sampled_from(TOKEN_POOL))
+            out.append("\n".join(tt))  # one token per line: errors land on late lines
+        elif k == 2:
+            out.append(text + "\n" * draw(st.integers(0, 30)) + "struct Tail { a @0: Missing" + str(draw(st.integers(0, 9))) + ", }\n")
+        else:
+            out.append(text)
+    return out
+
+
+def run_session(versions: List[str]) -> Optional[Tuple[str, str]]:
+    """Same path, same Logger, changing content: every error must render against the version that produced it."""
+    from fcp.error import Logger
+    from fcp.parser import get_fcp
+
+    logger = Logger({})
+    with MO.Scratch("verif-c11s-") as sc:
+        for n, text in enumerate(versions):
+            sc.write({"proj/schema.fcp": text})
+            try:
+                r = get_fcp(sc.path("proj/schema.fcp"), logger)
+                kind, res = ("err", r.err()) if r.is_err() else ("ok", r.unwrap())
+            except Exception as e:
+                kind, res = "exc", e
+            bad = judge(kind, res, logger)
+            if bad:
+                return "session:" + bad[0], f"version {n + 1} of {len(versions)} of the same file, shared Logger: {bad[1]}"
+            if kind == "err":
+                diag = logger.error(res)
+                lines = text.split("\n")
+                for name, line in CITE.findall(diag):
+                    if name == "schema.fcp" and not (1 <= int(line) <= len(lines)):
+                        return "session:cite-stale-line", f"version {n + 1}: cites [schema.fcp:{line}] but this version has {len(lines)} lines"
+    return None
+
+
 noise = st.one_of(
     st.text(max_size=60),
     st.binary(max_size=60).map(lambda b: b.decode("latin-1")),
@@ -399,6 +449,13 @@ def run_shard(ctx: Ctx) -> None:
         if bad:
             known_or_bucket(bad, t, "text")
 
+    def body_session(versions: List[str]) -> None:
+        bad = run_session(versions)
+        account("err" if bad is None else "err", "edit_session", versions, True, {"kind": "edit-session", "versions": versions})
+        if bad:
+            known_or_bucket(bad, {f"v{i}.fcp": v for i, v in enumerate(versions)}, "session")
+
+    hyp_run(ctx, edit_session(), body_session, ctx.n(800, 12000), tag="session")
     hyp_run(ctx, exotic(), body_exotic, ctx.n(2000, 50000), tag="exotic")
     hyp_run(ctx, S.full_schema(small_cfg()), body_prefix, ctx.n(64, 1600), tag="prefix")
     hyp_run(ctx, mutated(), body_mut, ctx.n(4000, 80000), tag="mut")
@@ -434,6 +491,9 @@ def dedup_key(c: Dict[str, Any]) -> str:
 
 
 def replay(c: Dict[str, Any]) -> Optional[str]:
+    if c["kind"] == "session":
+        bad = run_session([c["input"][k] for k in sorted(c["input"])])
+        return f"[{bad[0]}] {bad[1]}" if bad else None
     if c["kind"] == "text":
         _k, bad = run_text(c["input"])
     else:
